@@ -156,7 +156,7 @@ WITNESSES = [
 SPEC = dict(
     level="exploration",
     rule="Transcoder level (public API makeNewTranscoderFor -> transcodeFrom/transcodeTo/canTranscodeTo, TranscodeFromStr/ToStr), each item one distinct case: "
-         "(1) UTF-8 decode: EVERY byte string of length <= 3 (16,843,009) plus, quick: every 4-byte string over the 32 boundary bytes of Unicode Table 3-7 (32^4) and every 4-byte "
+         "(1) UTF-8 decode: every byte string of length <= 2, every 3-byte string (thorough: all 2^24; quick: first byte C0..FF or one of 00,41,7F,80,BF, all second and third bytes: 69 x 65536) plus, quick: every 4-byte string over the 32 boundary bytes of Unicode Table 3-7 (32^4) and every 4-byte "
          "string with first byte F0/F1/F4/F5 and second byte from 6 boundary values (24 x 65536); thorough: every 4-byte string whose first byte is C0..FF (2^30) or one of "
          "00,41,7F,80,BF (5 x 2^24); compared (units, bytesEaten, charSizes, exception) with a hand-written 9-state Table 3-7 DFA. "
          "(2) encode: EVERY Unicode scalar value (1,112,064) x 22 encodings: canTranscodeTo, transcodeTo (throw and replacement mode), decode(encode(c))==c, source blocks of 1..8 units "
